@@ -10,6 +10,7 @@ tie:     correspondence: directory trees are written under /verif/build/c14-<pid
 oracle:  the real resolvers against each other (CLI vs LSP rule vs ModuleResolver) on every import;
          the real type check against the generator's ground truth (is the referenced item `pub`?);
          cycles / missing modules must end with a diagnostic, in bounded time, without a crash."""
+import itertools
 import json
 import os
 import re
@@ -392,6 +393,25 @@ def part_A(chk, binary, scratch, res_broken):
             cases.append({"tree": t, "rec": rec, "text": text, "edir": edir, "idir": idir, "stem": stem,
                           "nested": nested is not None, "cwd_rel": cwd_rel, "ab": ab,
                           "nstem": None if nested is None else "zn%d" % j})
+    # marker lattice (added after seed C14-4): the importing file sits three directories deep and every ancestor level carries
+    # no marker / Cargo.toml / src/ / both, in all 64 combinations, with a module `m` at every directory a `crate` import could
+    # be anchored at.  The random trees above only ever have `src` at the top level, so "nearest marker of either kind" and
+    # "nearest Cargo.toml, else nearest src/" could not be told apart.
+    levels = ["h", "h/app", "h/app/sub"]
+    for ci, combo in enumerate(itertools.product(("none", "cargo", "src", "both"), repeat=3)):
+        t = Tree(scratch, "lat%d" % ci)
+        for L, mk in zip(levels, combo):
+            t.add(L + "/m.incn", "pub def zz() -> int:\n    return 1\n")
+            if mk in ("cargo", "both"):
+                t.cargo.add(L)
+            if mk in ("src", "both"):
+                t.add(L + "/src/m.incn", "pub def zz() -> int:\n    return 1\n")
+        rec = ("F" if ci % 2 == 0 else "M", True, 0, ["m"] if ci % 2 == 0 else ["m", "zz"])
+        text = import_text(rng, *rec)
+        t.add(levels[2] + "/zq0.incn", "def main() -> None:\n    pass\n", [text])
+        trees.append(t)
+        cases.append({"tree": t, "rec": rec, "text": text, "edir": levels[2], "idir": levels[2], "stem": "zq0", "nested": False,
+                      "cwd_rel": None if ci % 3 else "h/app", "ab": bool(ci % 3), "nstem": None})
     for t in trees:
         t.write()
     # --- real code
